@@ -110,6 +110,15 @@ def check_aggregate(case):
     require(np.array_equal(Q, Q0), "input-modified", "", facts)
     # predict_all again unchanged (predict_sorted must not sort the models in place)
     require(np.array_equal(model.predict_all(Q), pa), "predict_all:changed-after-sorted", "", facts)
+    # the hyper-parameter is changed WITHOUT refitting (what a grid search does between fits): the fitted models are the same,
+    # so predict is still their mean
+    model.set_params(n_estimators=case.get("other_n_estimators", ne + 3))
+    pa2 = model.predict_all(Q)
+    require(np.array_equal(pa2, pa), "predict_all:changed-by-set_params", "", facts)
+    p2 = model.predict(Q)
+    require(bool(np.all(np.abs(p2 - pa.mean(axis=1)) <= 1e-12 * scale)), "predict:not-mean:after-set_params",
+            "after set_params(n_estimators=%d) without refit, predict is no longer the mean of the %d fitted models' predictions" % (
+                case.get("other_n_estimators", ne + 3), ne), facts)
     return Outcome([case["base"], "n_jobs=%s" % case["n_jobs"], "weights" if w is not None else "no-weights",
                     "ne=1" if ne == 1 else "ne>1"], ne >= 2 and len(Q) >= 2)
 
@@ -133,7 +142,7 @@ def _agg_cases(draw, tier="quick"):
     q = draw(st.integers(1, 6))
     Q = draw(st.lists(st.lists(st.integers(-40, 40).map(lambda k: k / 4.0), min_size=d, max_size=d), min_size=q, max_size=q))
     noise = draw(st.lists(st.integers(-8, 8).map(lambda k: k / 8.0), min_size=12, max_size=12))
-    return dict(n=n, d=d, alpha=alpha, n_estimators=draw(st.integers(1, 12)), weights=draw(st.booleans()), base=base,
+    return dict(n=n, d=d, alpha=alpha, n_estimators=draw(st.integers(1, 12)), other_n_estimators=draw(st.integers(1, 24)), weights=draw(st.booleans()), base=base,
                 n_jobs=draw(st.sampled_from([None, 1, 2])), seed=draw(st.integers(0, 2**31 - 1)), Q=Q, noise=noise)
 
 
